@@ -58,9 +58,11 @@ class Box:
 
     def _render(self, content):
         fmt = self.rng.choice(['json', 'yaml', 'yaml_block'])
+        if any('@fixed' in r for b in content.values() if b['k'] == 'roles' for r in b['r']):
+            fmt = 'json'          # clock-independent content is rendered byte-identically every time
         d = {n: body_text(b) for n, b in content.items()}
         if fmt == 'json':
-            return json.dumps(d, indent=self.rng.choice([None, 2]))
+            return json.dumps(d, indent=None if fmt == 'json' and any('@fixed' in t for t in d.values()) else self.rng.choice([None, 2]))
         if fmt == 'yaml':
             return yaml.safe_dump(d, default_flow_style=False) if d else ''
         return ''.join('"%s": "%s"\n' % (n, t) for n, t in d.items()) or '# nothing\n'
